@@ -18,7 +18,7 @@ from ..seams import quiet
 from .c04 import local_fixpoint
 
 PROP = 'C13'
-TIERS = {'quick': 2100, 'thorough': 30000}
+TIERS = {'quick': 2100, 'thorough': 150000}
 RULE = ('each run: one block (FPAdder_SP, FPMult_SP, FPComparator_SP plain/absolute, InttoFP_SP, FPtoInt_SP), 20-60 operand '
         'vectors built from (sign, exponent, mantissa pattern): exponent gaps 0-60, mantissa patterns 0 / 1 / 0x400000 / '
         '0x7FFFFE / 0x7FFFFF / random, opposite signs with close magnitudes, powers of two +-1 for the converters; '
